@@ -4,3 +4,4 @@ import SemverSpec.Sets
 import SemverSpec.VersionLang
 import SemverSpec.VersionGrammar
 import SemverSpec.Location
+import SemverSpec.NpmRender
